@@ -17,6 +17,9 @@ Quantum(d, q) ==       \* the 4 characters for the q-th group of 3 bytes (1-base
       IF have >= 2 THEN Ch((b2 % 16) * 4 + (b3 \div 64)) ELSE 61, IF have >= 3 THEN Ch(b3 % 64) ELSE 61>>
 B64Enc(d) == FoldLeft(LAMBDA acc, q : acc \o Quantum(d, q), <<>>, [q \in 1..((Len(d) + 2) \div 3) |-> q])
 Strip(t) == SelectSeq(t, LAMBDA c : c # 10 /\ c # 13)
+(* blanks and tabs are not line structure: a decoder may skip them or refuse the text, but if it accepts, the answer is that of the text without them *)
+StripWs(t) == SelectSeq(t, LAMBDA c : c \notin {9, 10, 13, 32})
+HasBlank(t) == \E j \in 1..Len(t) : t[j] \in {9, 32}
 (* canonical base64 text (no line breaks): length multiple of 4, alphabet only, padding only in the last one or two places with zero spare bits *)
 PadCount(t) == IF Len(t) >= 2 /\ t[Len(t)] = 61 /\ t[Len(t) - 1] = 61 THEN 2 ELSE IF Len(t) >= 1 /\ t[Len(t)] = 61 THEN 1 ELSE 0
 Canonical(t) == /\ Len(t) % 4 = 0
@@ -35,8 +38,9 @@ HexOK(t) == Len(t) % 2 = 0 /\ \A j \in 1..Len(t) : HexVal(t[j]) >= 0
 HexDec(t) == [j \in 1..(Len(t) \div 2) |-> HexVal(t[2 * j - 1]) * 16 + HexVal(t[2 * j])]
 Judge(c) ==
     CASE c.kind = "b64enc" -> c.rc = 1 /\ Strip(c.text) = B64Enc(c.data) /\ \A j \in 1..Len(c.text) : (Idx(c.text[j]) >= 0 \/ c.text[j] \in {61, 10})
-      [] c.kind = "b64dec" -> LET t == Strip(c.text) IN
-                              IF Canonical(t) THEN c.rc = 1 /\ c.out = B64Dec(t)
+      [] c.kind = "b64dec" -> LET t == Strip(c.text)  w == StripWs(c.text) IN
+                              IF HasBlank(t) THEN (IF Canonical(w) THEN (c.rc = 1 => c.out = B64Dec(w)) ELSE (Malformed(w) => c.rc # 1))
+                              ELSE IF Canonical(t) THEN c.rc = 1 /\ c.out = B64Dec(t)
                               ELSE IF Malformed(t) THEN c.rc # 1
                               ELSE TRUE                                             \* non-zero spare bits: either answer is tolerated
       [] c.kind = "hexdec" -> IF HexOK(c.text) THEN c.rc = 1 /\ c.out = HexDec(c.text) ELSE c.rc # 1
@@ -48,6 +52,7 @@ Judge(c) ==
       [] c.kind = "pemtext" -> \* reading arbitrary PEM text: malformed bodies are refused; nothing beyond the capacity is written
                               /\ c.written <= c.maxlen
                               /\ (c.badbody => c.rc # 1)
+                              /\ (c.good => c.rc = 1 /\ c.out = c.data)
 Init == i = 1
 Next == /\ i <= Len(Cases) /\ i' = i + 1
         /\ IF Judge(Cases[i]) THEN TRUE ELSE PrintT(<<"MISMATCH", i, Cases[i].kind>>)
